@@ -5,6 +5,7 @@ CONSTANTS
   ElemSize = 8
   FixD1 = TRUE
   FixD4 = TRUE
+  FixD6 = TRUE
   Debug = FALSE
   MaxB = 64
   ArgMode = "boundary"
